@@ -302,7 +302,7 @@ func parentsOf(i *gedcom.IndividualNode) (out gedcom.IndividualNodes) {
 
 func genCase(rt *rapid.T) matchCase {
 	base := rapid.SampledFrom([]int{1850, 1900}).Draw(rt, "base")
-	o := gen.GraphOpts{MaxPeople: 6, MaxFamilies: 3, YearLo: base, YearHi: base + rapid.SampledFrom([]int{3, 40}).Draw(rt, "span"), UIDs: true, WildDates: true}
+	o := gen.GraphOpts{MaxPeople: 6, MaxFamilies: 3, YearLo: base, YearHi: base + rapid.SampledFrom([]int{3, 40}).Draw(rt, "span"), UIDs: true, WildDates: true, Big: 50, BigLo: 20, BigHi: 45}
 	c := matchCase{Left: gen.Graph(o).Draw(rt, "left")}
 	switch rapid.IntRange(0, 3).Draw(rt, "rightKind") {
 	case 0:
